@@ -23,6 +23,7 @@ func init() {
 			"O4 each dependency-bearing accessor of the call-graph node (ResolvedInputs, Disabled, ResolvedOutputs) flows into Node.prenodes and setPostNode; in makePrenodesForBinding the raw-reference pass (Exp.FindRefs, fork roots) lies on every returning path and its elements are inserted into the prenode set, " +
 			"O5 preflight nodes become prenodes of every non-preflight sub-node and setPrenode recurses into sub-pipelines, " +
 			"O6 a merge over a run-time fork count whose ForkNode is nil (meaning the mapped call itself, as the runtime's fallback shows) still yields a prenode: FindRefs adds a Call-derived reference or a function reachable from makePrenodesForBinding handles the nil case. " +
+			"O4 also: every loop over the node's disabling conditions enumerates the references inside each entry (FindRefs), so a condition wrapped by a mapped call still yields its prenode. " +
 			"NOT decided: that FindRefs returns every reference, metadata state derivation from real files, job manager scheduling.",
 		Assumptions: commonAssumptions,
 	}
